@@ -12,6 +12,7 @@ from . import src_common as S
 
 FORMS = ["path", "gz", "string", "list", "generator", "iter", "map", "dataiterator", "featuredb"]
 LOOK = ["featuretype", "chrom", "attribute_keys", "feature_count"]
+LOOK2 = ["start", "featuretype"]        # any attribute of the Feature objects may be tallied: coordinates too (0 is a value like any other)
 
 
 def make_input(form, path, text, cl, store):
@@ -48,7 +49,7 @@ def run_case(args):
     from gffutils import inspect as gi
     fails = []
     text = S.render(c["kinds"])
-    if any(x in ("FASTA", "H", "J", "D3") for x in c["kinds"]):
+    if any(x in ("FASTA", "H", "J", "D3", "D0") for x in c["kinds"]):
         return fails          # FASTA sections are C14's subject; here all forms must see the same features
     base = os.path.join(scratch, "c13_%d_%d" % (os.getpid(), k))
     path = base + ".gff"
@@ -135,7 +136,7 @@ def run_case(args):
             if form in ("path", "list", "generator", "featuredb"):
                 shared = list(LOOK)       # the caller's own list, passed to several calls: it must come back untouched and every call must answer alike
                 for limit, key in ((None, "inspect0"), (2, "inspect2")):
-                    for look in (LOOK, ["featuretype"], ["chrom", "attribute_keys"], [], "default", "default", "shared", "shared"):
+                    for look in (LOOK, ["featuretype"], ["chrom", "attribute_keys"], [], LOOK2, "default", "default", "shared", "shared"):
                         with S.quiet():
                             if look == "default":     # look_for left to its default, more than once in one process
                                 r = gi.inspect(make_input(form, path, text, cl, store), limit=limit, verbose=False)
@@ -152,6 +153,8 @@ def run_case(args):
                         for lk, ek in (("featuretype", "featuretype"), ("chrom", "chrom"), ("attribute_keys", "attribute_keys")):
                             if lk in look:
                                 expd[lk] = {dec(x): n for x, n in e[ek]}
+                        if "start" in look:
+                            expd["start"] = {x: n for x, n in e["start"]}
                         if r != expd:
                             fails.append(("inspect_%s" % form, [look, limit, r]))
     except Exception as e:  # noqa
@@ -173,7 +176,7 @@ def run(ctx):
     cases = S.get_cases(ctx, mi, "item sequences x checklines")
     if cases is None:
         return
-    cases = [c for c in cases if not any(x in ("FASTA", "H", "J", "D3") for x in c["kinds"])]
+    cases = [c for c in cases if not any(x in ("FASTA", "H", "J", "D3", "D0") for x in c["kinds"])]
     ctx.exhaustive = True
     limit = 12000 if thorough else 1200
     if len(cases) > limit:
